@@ -11,7 +11,7 @@ PY = "/venv/bin/python"
 CLAIMS = {
     "C03": dict(
         technique="derived-table maintenance rules (pairing of every writer of the function with the corrections of the tables defined from it; affine sign/index checks)",
-        design="DESIGN.md section 4 (C03), engine F",
+        design='DESIGN.md sections 3 (engine F) and 4 (C03)',
         text="Static analysis of necessary structural clauses of the incremental table method, not of its result: the tables kept "
              "next to the function f (shifts = child value + shift - parent value; rules pumping / using a class; the value "
              "histogram) are defined from f and the inserted rules, and for every writer of f the matching correction of each table "
@@ -26,29 +26,20 @@ CLAIMS = {
     ),
     "C04": dict(
         technique="ast provenance/alignment data-flow + who-may-record call-site rule",
-        design="DESIGN.md section 4 (C04), engines P,T",
-        text="Static analysis of a necessary structural clause, not the behaviour: every (start, ends, rule) "
-             "triple that reaches a rule database is computed from that same rule object (guarded start label, "
-             "order-preserving unfiltered child labels), children are dropped only under possibly_empty AND "
-             "is_empty, strategy applications sit inside StrategyDoesNotApply handlers, emptiness has only "
-             "sanctioned writers. Holds for all inputs because it is a property of every path of the enumerated "
-             "functions; says nothing about whether strategies honour their contracts.",
-        note="Trusted: CPython ast, the hand-written resolver/guard model (DESIGN.md 2.1, appendix D). Assumes "
+        design='DESIGN.md sections 3 (engines P, T) and 4 (C04)',
+        text='Static analysis of necessary structural clauses, not the behaviour: every (start, ends, rule) triple that reaches a rule database is computed from that same rule object (guarded start label, order-preserving unfiltered child labels); children are dropped only under possibly_empty AND is_empty and every other label is kept exactly once; strategy applications sit inside StrategyDoesNotApply handlers that neither yield nor record; the (class, label) arguments handed on belong together, including the class remembered per label in the expansion loop; emptiness has only sanctioned writers; class storage is append-only and compressed exactly once. Holds for all inputs because it is a property of every path of the enumerated functions; says nothing about whether strategies honour their contracts.',
+        note="Trusted: CPython ast, the hand-written resolver/guard model (DESIGN.md 2.1, appendix B). Assumes "
              "strategies honour possibly_empty / StrategyDoesNotApply contracts.",
     ),
     "C05": dict(
-        technique="label-kind (raw vs representative) abstract interpretation + cache-invalidation dominance rule",
-        design="DESIGN.md section 4 (C05), engine K",
-        text="Decides (i) every label handed to pruning / proof-tree code with a representative-keyed dictionary is "
-             "a representative, consistently at all sites, and every producer of a key up to equivalence sorts; "
-             "(ii) every mutation of the rule stores resets the cached pruned dictionary and no foreign code "
-             "mutates the stores. Necessary for 'exactly when'; does NOT decide that prune computes the fixed "
-             "point, nor minimality of the smallest tree.",
-        note="Trusted: ast, kind tables read from the code (appendix B). Partial by design.",
+        technique='label-kind (raw vs representative) abstract interpretation, evaluation-order / staleness rule, cache-invalidation dominance rule, purity and bisection conformance rules',
+        design='DESIGN.md sections 3 (engine K) and 4 (C05)',
+        text='Decides: every label handed to pruning / proof-tree code with a representative-keyed dictionary is a representative; every producer of a key up to equivalence sorts; rules inside one equivalence class are dropped by an equivalence test; one-way cycles are connected unconditionally before rules are collapsed and the cycle search has no early exit; every mutation of the stores resets the cached pruned dictionary and nobody else mutates them; a representative is never used across a call that may merge classes (evaluation order included); the one-way table is normalised and loss-free; the finders do not modify the dictionary they are handed; depth-first generators thread the seen-set; the smallest-tree search is a correct bisection. Does NOT decide that prune computes the fixed point.',
+        note="Trusted: ast, kind tables read from the code (section 3). Partial by design.",
     ),
     "C06": dict(
         technique="label-kind inference inside the union-find + representation-discipline rules (verified flag, edges, cycle merge, path)",
-        design="DESIGN.md section 4 (C06), engine K and rules K12-K17",
+        design='DESIGN.md sections 3 (engine K, K12-K17) and 4 (C06)',
         text="Decides the soundness side only: equivalence and verification are decided through find, the verified mark lives on "
              "representatives and is carried over every merge, merges link roots and keep weights in step, two-way edges are recorded "
              "both ways, one-way edges enter a normalised loss-free table and are merged only along a closed cycle, the cycle search is "
@@ -58,33 +49,25 @@ CLAIMS = {
     ),
     "C07": dict(
         technique="structural inverse-pair check of derived-rule maps + alignment data-flow",
-        design="DESIGN.md section 4 (C07), engines M,P",
-        text="Decides only the round-trip plumbing of derived rule forms (same slot in forward/backward, reversed "
-             "fold order for paths) and the wiring of object generation (sub-providers aligned with children, one "
-             "level appended per iteration). Necessary for map/unmap round trips; does not decide set equality "
-             "of generated objects.",
+        design='DESIGN.md sections 3 (engines M, V, S0) and 4 (C07)',
+        text='Decides the round-trip plumbing of derived rule forms (same slot in forward/backward, reversed fold order for paths), the wiring of object generation (sub-providers aligned with children, one complete level appended per iteration, the first missing level computed), that generation and counting of a product run over the same index set utils.compositions(n, k, min_sizes, max_sizes) whose bounds and completeness are re-derived (S0), and the parameter maps that key the objects. Necessary for map/unmap round trips and for generated sets agreeing with counts; does not decide set equality of generated objects.',
         note="Trusted: ast; assumes the original strategy's maps are mutually inverse.",
     ),
     "C08": dict(
         technique="inverse-CDF walk shape analysis (draw range, accumulator, comparison normal form)",
-        design="DESIGN.md section 4 (C08), engine U",
-        text="Decides that each threshold walk is an exact inverse-CDF walk over the weights it accumulates "
-             "(draw range/comparison pair, accumulate-before-compare, weight and sampler use the same parameters), "
-             "that the preimage pick is uniform and that the refusal guard dominates sampling. Does not decide "
-             "that the weights are true counts.",
-        note="Trusted: ast; arithmetic normalisation of comparison idioms (appendix D).",
+        design='DESIGN.md sections 3 (engines U, V, M) and 4 (C08)',
+        text="Decides that each threshold walk is an exact inverse-CDF walk over the weights it accumulates (draw range/comparison pair, accumulate-before-compare, weight and sampler use the same translated parameters), that N is the rule's own count, that the preimage pick is uniform, that the refusal guard dominates sampling and is evaluated per query, that the parameter split of a product offers each child the intersection of its own interval with what the rest can absorb, that queries never write constructor tables through an alias, and that derived rule forms map through the same slot both ways. Does not decide that the weights are true counts.",
+        note="Trusted: ast; arithmetic normalisation of comparison idioms (appendix B).",
     ),
     "C09": dict(
         technique="variable-namespace kind inference (parent vs child statistic names / positions)",
-        design="DESIGN.md section 4 (C09), engine V",
-        text="Decides namespace and position-space discipline of the four constructors and the two derived "
-             "constructors: child terms are re-keyed through that child's own table in the right direction, "
-             "per-child maps are paired with per-child terms. Does not decide the arithmetic of the recurrences.",
-        note="Trusted: ast, kind tables (appendix C). Partial by design.",
+        design='DESIGN.md sections 3 (engines V, S0, M6, U7) and 4 (C09)',
+        text="Decides namespace and position-space discipline of the four constructors and the derived constructors: child terms are re-keyed through that child's own fresh multi-valued table in the right direction, per-child maps are paired with per-child terms, zero sets are parent names, queries do not mutate the tables; products count over the complete, bounded enumeration utils.compositions (S0) with all provider combinations, and parameter splits are interval intersections. Does not decide the arithmetic of the recurrences.",
+        note="Trusted: ast, kind tables (section 3, engine V). Partial by design.",
     ),
     "C10": dict(
         technique="affine size-flow bounds analysis (abstract interpretation over concrete arities)",
-        design="DESIGN.md section 4 (C10), engine S, appendix A",
+        design='DESIGN.md sections 3 (engine S), 4 (C10) and appendix A',
         text="Decides the property itself for the constructors and rule forms defined in the package, for every "
              "rule arity up to K and every flipped index: each provider call is bounded by n minus the declared "
              "shift of that position (affine certificate per obligation). Does not cover user-defined constructors "
@@ -93,16 +76,14 @@ CLAIMS = {
              "(appendix A) and its summary of utils.compositions, itself re-derived (rule S0).",
     ),
     "C11": dict(
-        technique="enumeration/exhaustiveness + sibling-agreement rules over forest.py",
-        design="DESIGN.md section 4 (C11), engine P",
-        text="Decides four structural clauses: bucket exhaustiveness, reverse-first minimisation order, key-function "
-             "agreement across forest_key call sites, recomputation discipline under StrategyDoesNotApply. Does not "
-             "decide minimality/productivity of the extracted set.",
+        technique='enumeration/exhaustiveness, sibling agreement, memo-purity and alias-discipline rules over forest.py and every forest_key implementation',
+        design='DESIGN.md sections 3 (rules E, W4) and 4 (C11)',
+        text='Decides: every bucket a rule can be filed under is minimised, REVERSE first; all forest_key call sites use the same (get_label, is_empty) pair and every reverse form is considered under exactly the is_reversible() guard, at insertion and at recovery; a recomputed rule is returned only when its key equals the requested one; factory-made rules are probed under a StrategyDoesNotApply handler; every key of the pumping sub-universe is filed (no projection-based skip); a key is never memoised on the rule across class databases; aliases of owned containers are updated in place; the whole pack is replayed. Does not decide minimality/productivity of the extracted set.',
         note="Trusted: ast. Partial by design.",
     ),
     "C12": dict(
         technique="writer/reader convention agreement by side inference (data flow from parameter positions), inverse-data and argument-order rules, release-on-every-exit pairing",
-        design="DESIGN.md section 4 (C12), engine B",
+        design='DESIGN.md sections 3 (engine B) and 4 (C12)',
         text="Static analysis of necessary structural clauses of the matcher and the parse-tree transport, not of the transported "
              "objects: the permutation recorded per matched pair is written as perm[position in spec 2] = position in spec 1 under the "
              "key (node of spec 1, node of spec 2) and read with the same convention and key orientation; the inverse order map is the "
@@ -116,69 +97,55 @@ CLAIMS = {
              "Assumes strategy maps are mutually inverse and constructor.equiv is an equivalence relation.",
     ),
     "C13": dict(
-        technique="label-kind abstract interpretation (root identity between extractor and specification)",
-        design="DESIGN.md section 4 (C13), engine K",
-        text="Decides that the specification-building site of the parallel finder tells the extractor the raw start "
-             "label of the very class the specification is rooted at, and that every label handed to "
-             "representative-keyed structures is a representative. Necessary for totality on start classes that "
-             "are equivalent to other classes; does not decide isomorphism of the outputs.",
+        technique='label-kind abstract interpretation + writer/reader convention agreement by side inference + two-sided acceptance rule',
+        design='DESIGN.md sections 3 (engines K, B) and 4 (C13)',
+        text="Decides that the specification-building site of the parallel finder tells the extractor the raw start label of the very class the specification is rooted at; that every label handed to representative-keyed structures is a representative; that a stored strategy is re-applied to the class of its own key; that partial extractors index children through the order map; that the equivalence path starts at a raw label; that the finder's permutation convention agrees with its reader, its backtracking offers every unused position once, and its second search settles a pair only when both sides are assigned. Necessary for totality; does not decide validity / isomorphism of the outputs.",
         note="Trusted: ast, kind tables (appendix B).",
     ),
     "C14": dict(
         technique="key-shape inference + mapping-protocol completeness + normal-form sibling agreement",
-        design="DESIGN.md section 4 (C14), engine T",
-        text="Decides that every store access uses an (int, tuple) key, that both store implementations provide "
-             "every operation used and agree on the key normal form, and that the recomputation path only calls "
-             "total ClassDB operations. Does not decide that recomputation returns the same strategy when several "
-             "apply.",
+        design="DESIGN.md sections 3 (engines T', T, K8) and 4 (C14)",
+        text='Decides that every store access uses an (int, tuple) key, that both store implementations provide every operation used and agree on the key normal form and on the two-way predicate, that recomputation replays the whole pack, returns a strategy only for the requested key, applies it to the class of its own key, and only calls total ClassDB operations. Does not decide that recomputation returns the same strategy when several apply.',
         note="Trusted: ast.",
     ),
     "C15": dict(
         technique="container-kind/handler agreement, range-guard dominance, writer-set and compression-state rules",
-        design="DESIGN.md section 4 (C15), engine T",
+        design='DESIGN.md sections 3 (engine T) and 4 (C15)',
         text="Decides totality of lookups (range / handler discipline), append-only parallel storage with label = "
              "index, exactly-once compression with an inverse decompression pipeline, and the sanctioned writers of "
              "the emptiness cache. Each is a literal clause of the property; user-class __eq__/__hash__ are assumed.",
-        note="Trusted: ast and the guard model (appendix D).",
+        note="Trusted: ast and the guard model (appendix B).",
     ),
     "C16": dict(
         technique="guard/pairing/ordering rules over the queue's control structure (dominance, followed-by)",
-        design="DESIGN.md section 4 (C16), engine Q",
+        design='DESIGN.md sections 3 (engine Q) and 4 (C16)',
         text="Decides the guard, pairing and ordering clauses of DefaultQueue (hand-out check after dequeue, monotone "
              "ignore set, once-only flags set after the yield inside the same guard, exhaustion before bookkeeping, "
              "expansion order). Does not decide completeness after draining or termination.",
-        note="Trusted: ast and the control model (appendix D).",
+        note="Trusted: ast and the control model (appendix B).",
     ),
     "C17": dict(
         technique="state-closure picklability/equality analysis + time-taint reachability over the call graph",
-        design="DESIGN.md section 4 (C17), engine R",
-        text="Decides that no attribute in the searcher's state closure is unpicklable, that every class in the "
-             "closure compares by value, and that time-dependent control can only interrupt between work packets. "
-             "Does not decide that the continuation visits the same work in the same order.",
+        design='DESIGN.md sections 3 (engine R, K5/K6/K18) and 4 (C17)',
+        text="Decides that no attribute in the searcher's state closure is unpicklable, that every class in the closure compares by value, that time-dependent control can only interrupt between work packets, that there is no module-level state, and that specification queries leave the state they read unchanged (cache reset discipline, loss-free one-way table, finders do not modify the dictionary). Does not decide that the continuation visits the same work in the same order.",
         note="Trusted: ast, attribute-type table, call graph over resolved callees.",
     ),
     "C18": dict(
         technique="writer/reader key-table agreement per to_jsonable/from_dict pair + equality-purity rule",
-        design="DESIGN.md section 4 (C18), engine J",
-        text="Decides that the key set written equals the key set consumed for every serialisable class, that "
-             "constructor settings travel back to the same parameter, that derived forms are rebuilt through their "
-             "own constructor, and that nothing but settings can enter the __dict__ equality compares.",
+        design='DESIGN.md sections 3 (engine J) and 4 (C18)',
+        text="Decides that the key set written equals the key set consumed for every serialisable class, that every constructor setting is written and travels back to the same parameter, that derived forms are rebuilt through their own constructor, that nothing but settings can enter the __dict__ equality compares, that the bijection's nested maps keep their orientation and every pair, and that the specification writes every rule it holds. Does not decide behavioural equality of reloaded objects.",
         note="Trusted: ast. User classes outside the repository are not covered.",
     ),
     "C19": dict(
-        technique="exit-condition and copy-before-share escape analysis of expand_verified/expand_comb_class",
-        design="DESIGN.md section 4 (C19), engine P",
-        text="Decides the exit condition of expand_verified, that every rule object of the original specification "
-             "passes through copy before reaching the new database, and that the new search is rooted and seeded "
-             "from the same root with aligned labels. Does not decide enumeration preservation.",
+        technique='exit-condition and copy-before-share escape analysis of expand_verified / expand_comb_class',
+        design='DESIGN.md sections 3 (rules X, E3) and 4 (C19)',
+        text='Decides the exit condition of expand_verified (only the specification just re-examined is returned, the loop never reads the original), that every rule object of the original passes through copy before reaching the new database, that the new search is rooted and seeded from the same root with aligned labels and the expanded class excluded, that verified labels stay in the queue, and that every reverse form is inserted. Does not decide enumeration preservation.',
         note="Trusted: ast.",
     ),
     "C20": dict(
-        technique="variable-namespace kind inference on substitution tables + fallback discipline",
-        design="DESIGN.md section 4 (C20), engine V",
-        text="Decides that every substitution table is {child var: parent var} built from that child's own table and "
-             "paired with that child's function, that unsupported constructors refuse with NotImplementedError and "
-             "the only fallback is the original rule's equation. Does not decide the algebraic form or genf selection.",
+        technique='variable-namespace kind inference on substitution tables + fallback discipline + symbolic evaluation of get_equation over Laurent polynomials',
+        design='DESIGN.md sections 3 (engines V, S/V9) and 4 (C20)',
+        text="Decides that every substitution table is {child var: product of the parent vars mapped onto it} built from that child's own table and paired with that child's function, that unsupported constructors refuse with NotImplementedError and the only fallback is the original rule's equation, and - by abstract interpretation over Laurent polynomials in opaque function symbols - that the four constructors' equations for classes without statistics have the forms f0+f1+..., f0-f1-..., f0*f1*..., f0/(f1*...) for every arity up to K and flipped index. Does not decide equations with statistics nor genf selection.",
         note="Trusted: ast. Partial by design.",
     ),
 }
